@@ -41,6 +41,10 @@ func expectedView(def hcfg, init0, init1 hval, order []ghostReport, verifying bo
 	latest := []hval{init0, init1}
 	stack := func() hcfg {
 		c := def
+		px := int64(0)
+		if def.P != nil {
+			px = def.P.X
+		}
 		for _, l := range latest {
 			if l.setA {
 				c.A = l.a
@@ -51,6 +55,12 @@ func expectedView(def hcfg, init0, init1 hval, order []ghostReport, verifying bo
 			if l.setBad {
 				c.Bad = l.bad
 			}
+			if l.setPX {
+				px = l.px
+			}
+		}
+		if def.P != nil {
+			c.P = &hsub{X: px}
 		}
 		return c
 	}
@@ -71,13 +81,15 @@ func expectedView(def hcfg, init0, init1 hval, order []ghostReport, verifying bo
 func c05scenario(k0, k1, reads int) {
 	verifyLog = nil
 	g := &ghostState{}
-	def := hcfg{A: zzverif.Int64("defA"), B: zzverif.Int64("defB")}
+	defPX := zzverif.Int64("defPX")
+	def := hcfg{A: zzverif.Int64("defA"), B: zzverif.Int64("defB"), P: &hsub{X: defPX}}
 	init0 := hval{setA: true, a: zzverif.Int64("a_init")}
 	init1 := hval{setB: true, b: zzverif.Int64("b_init")}
 	s0 := &hwsrc{hsrc{name: "s0", init: init0}}
 	s1 := &hwsrc{hsrc{name: "s1", init: init1}}
 	ctx, cancel := context.WithCancel(context.Background())
 	defc := def
+	defc.P = &hsub{X: defPX}
 	d, err := Config(ctx, &defc, s0, s1)
 	zzverif.Assert(err == nil, "C04 Config failed on a valid initial stack")
 	if err != nil {
@@ -91,7 +103,8 @@ func c05scenario(k0, k1, reads int) {
 			var v hval
 			name := "u" + strconv.Itoa(idx) + "_" + strconv.Itoa(i)
 			if idx == 0 {
-				v = hval{setA: true, a: zzverif.Int64(name + "_a")}
+				// the nested section is set (or not) by the first update and left alone by later ones
+				v = hval{setA: true, a: zzverif.Int64(name + "_a"), setPX: i == 0 && zzverif.Choose(name+"_setPX", 2) == 1, px: zzverif.Int64(name + "_px")}
 			} else {
 				v = hval{setB: true, b: zzverif.Int64(name + "_b"), setBad: true, bad: zzverif.Bool(name + "_bad")}
 			}
@@ -124,6 +137,8 @@ func c05scenario(k0, k1, reads int) {
 	got, ser := d.ViewVersion()
 	zzverif.Assert(zzverif.And(got.A == want.A, got.B == want.B), "C05 the view differs from a fresh stack of the latest reported values")
 	zzverif.Assert(got.Bad == want.Bad, "C05 the view's validity flag differs from a fresh stack")
+	zzverif.Assert(got.P != nil && got.P.X == want.P.X, "C05 the view's nested section differs from a fresh stack of the latest reported values")
+	zzverif.Assert(defc.P != nil && defc.P.X == defPX && defc.P != got.P, "C05 re-stacking wrote through to the caller's defaults")
 	zzverif.Assert(ser.s == wantSerial, "C05 the serial does not count the installed versions")
 	g.observe("final ViewVersion", got, ser.s, true)
 	zzverif.Reached("c05-end")
